@@ -290,6 +290,7 @@ func (c *Ctx) ruleReflect(rule string, fns map[*ssa.Function]bool) {
 				}
 				if (m == "Set" || m == "SetMapIndex") && len(call.Call.Args) >= 2 {
 					c.reflectSetArgs(rule, dt, fn, b, call, m, cnt)
+					c.reflectSetAssignable(rule, fn, b, call, m, cnt)
 				}
 				if m == "Set" && len(call.Call.Args) == 2 && isStructFieldValue(call.Call.Args[0], map[ssa.Value]bool{}) {
 					// (h) Set on a struct field obtained by reflection panics for an unexported field ("using value
@@ -995,4 +996,52 @@ func (c *Ctx) isChildUnserializeResult(k ssa.Value) bool {
 	}
 	call, ok := ex.Tuple.(*ssa.Call)
 	return ok && call.Call.IsInvoke() && call.Call.Method.Name() == "Unserialize"
+}
+
+// ---- (i) reflect.Value.Set / SetMapIndex: the value is assignable to the destination ----------------------------------
+//
+// dst.Set(v) and m.SetMapIndex(k, v) panic ("value of type X is not assignable to type Y") when the dynamic type of v
+// does not fit. The containers build their result with a type that is known only at run time (the item schema's
+// ReflectedType()) and fill it with what the item schema's Unserialize returned: the two agree only as long as every
+// schema type keeps to what it declares (a one-of over a Go interface with a member that does not implement it does
+// not). Obligation, for every Value argument that wraps a value of interface type (reflect.ValueOf(x), x dynamic):
+// on every path Type().AssignableTo(..) of that very Value was found true, the Value is the result of Convert, or the
+// call sits in a recover scope.
+func (c *Ctx) reflectSetAssignable(rule string, fn *ssa.Function, b *ssa.BasicBlock, call *ssa.Call, m string, cnt map[string]int) {
+	for i := 1; i < len(call.Call.Args); i++ {
+		arg := call.Call.Args[i]
+		x := valueOfArg(arg)
+		if x == nil {
+			if conv, ok := arg.(*ssa.Call); ok && reflectValueMethod(conv) == "Convert" {
+				cnt["assign"]++
+				c.R.Ok(rule, key(rule, c.M.Key(fn), sprintf("%s argument #%d is assignable to the destination #%d", m, i, cnt["assign"])), c.M.InstrPos(call),
+					"reflect.Value."+m+" with a dynamically typed value", "the argument is the result of Convert to a type taken from the destination")
+			}
+			continue
+		}
+		if _, isIface := x.Type().Underlying().(*types.Interface); !isIface {
+			continue
+		}
+		cnt["assign"]++
+		k := key(rule, c.M.Key(fn), sprintf("%s argument #%d is assignable to the destination #%d", m, i, cnt["assign"]))
+		what := "reflect.Value." + m + " with a dynamically typed value"
+		path := c.reflPath(arg, 0)
+		est := func(cond core.Cond) bool {
+			ac, ok := cond.V.(*ssa.Call)
+			if !ok || !cond.True || !ac.Call.IsInvoke() || ac.Call.Method.Name() != "AssignableTo" {
+				return false
+			}
+			tc, ok := ac.Call.Value.(*ssa.Call)
+			return ok && reflectValueMethod(tc) == "Type" && c.reflPath(tc.Call.Args[0], 0) == path
+		}
+		switch {
+		case isRecoverScope(fn):
+			c.R.Ok(rule, k, c.M.InstrPos(call), what, "the function recovers: the panic becomes the recovered error")
+		case core.MustHold(fn, est)[b]:
+			c.R.Ok(rule, k, c.M.InstrPos(call), what, "on every path Type().AssignableTo(...) of the same Value was found true")
+		default:
+			c.R.Bad(rule, k, c.M.InstrPos(call), "reflect.Value."+m+" may receive a value that is not assignable to the destination",
+				"the destination's type is what the item schema declares (ReflectedType()), the value is what its Unserialize returned: a schema type that does not keep to its declaration (a one-of over a Go interface with a map-based member) makes "+m+" panic instead of the value being refused")
+		}
+	}
 }
